@@ -216,16 +216,21 @@ Record knobs := {
   k_exact : bool;      (* the Reference URI is compared with "#"+ID byte for byte; false = ignoring letter case *)
   k_lax : bool         (* 32211c52 (C02-F3): the uniqueness test of _is_the_only_signature_child sees every element that the
                           engine's --id-attr registration matches (also the un-namespaced ones of that local name);
-                          false = before: the namespace-qualified elements of the node name only *)
+                          false = before: the namespace-qualified elements of the node name only *);
+  k_one : bool         (* 6a3bb24f (C02-F4): parse_assertion refuses more than one processed assertion (self.assertions)
+                          unless the Response itself carries a - then verified - signature *)
 }.
 Definition as_coded : knobs :=
-  {| k_uri := true; k_uniq := true; k_nodeid := true; k_onesig := true; k_issuer := true; k_iter := true; k_exact := true; k_lax := true |}.
+  {| k_uri := true; k_uniq := true; k_nodeid := true; k_onesig := true; k_issuer := true; k_iter := true; k_exact := true; k_lax := true; k_one := true |}.
+(* before 6a3bb24f *)
+Definition knobs_v2 : knobs :=
+  {| k_uri := true; k_uniq := true; k_nodeid := true; k_onesig := true; k_issuer := true; k_iter := true; k_exact := true; k_lax := true; k_one := false |}.
 (* before 32211c52 *)
 Definition knobs_v1 : knobs :=
-  {| k_uri := true; k_uniq := true; k_nodeid := true; k_onesig := true; k_issuer := true; k_iter := true; k_exact := true; k_lax := false |}.
+  {| k_uri := true; k_uniq := true; k_nodeid := true; k_onesig := true; k_issuer := true; k_iter := true; k_exact := true; k_lax := false; k_one := false |}.
 (* before e81db11e and 64feb908 *)
 Definition knobs_v0 : knobs :=
-  {| k_uri := true; k_uniq := true; k_nodeid := true; k_onesig := false; k_issuer := false; k_iter := true; k_exact := true; k_lax := false |}.
+  {| k_uri := true; k_uniq := true; k_nodeid := true; k_onesig := false; k_issuer := false; k_iter := true; k_exact := true; k_lax := false; k_one := false |}.
 
 (* ------------------------------------------------------------------ the signature engine *)
 (* pysaml2 hands the document to an external signature engine.  The engine it is written for is xmlsec1
@@ -752,6 +757,12 @@ Section Crypto.
   Definition count_ok (doc : tree) : bool :=
     Nat.eqb (length (many ASSERTION doc)) 1 || Nat.eqb (length (many ENCASSERTION doc)) 1.
 
+  (* parse_assertion after 6a3bb24f: `self.context != "AuthnQuery" and len(self.assertions) > 1 and not
+     self.response.signature` => InvalidAssertion.  fed = self.assertions (decrypted assertions, then the plain ones);
+     on this path the Response carries a signature exactly when resp_signed (it was then verified) *)
+  Definition one_fed (K : knobs) (resp_signed : bool) (fed : list tree) : bool :=
+    negb (k_one K) || resp_signed || Nat.leb (length fed) 1.
+
   (* The acceptance path.  doc = the Response as received; ddoc = the text against which the
      signatures of decrypted assertions are verified (str(response) after decrypt_keys), only
      consulted when find_encrypt_data holds.  Result: None = no identity. *)
@@ -789,7 +800,8 @@ Section Crypto.
                         if want_either c && negb resp_signed && negb signed then None
                         else match plain ++ encs ++ plain' with
                              | [] => None        (* no assertion, no name_id, empty ava: no identity *)
-                             | _ => Some (report c doc (plain ++ encs) (encs ++ plain'), d0 ++ d1 ++ d2)
+                             | _ => if negb (one_fed K resp_signed (encs ++ plain')) then None
+                                    else Some (report c doc (plain ++ encs) (encs ++ plain'), d0 ++ d1 ++ d2)
                              end
                     end
                 end
@@ -797,7 +809,8 @@ Section Crypto.
                 if want_either c && negb resp_signed && negb all1 then None
                 else match plain with
                      | [] => None
-                     | _ => Some (report c doc plain plain, d0 ++ d1)
+                     | _ => if negb (one_fed K resp_signed plain) then None
+                            else Some (report c doc plain plain, d0 ++ d1)
                      end
           end
       end.
